@@ -141,7 +141,34 @@ func runC13(r *Rec) {
 			amount = r.Rng.Uint64() >> uint(r.Rng.Intn(64))
 			period = 1 + r.Rng.Uint64()>>uint(r.Rng.Intn(64))
 		}
+		// an upsert under the name of a stored record replaces it (an EDIT: e.g. the same amount with a shorter period)
+		upName, rep := "zrec", "-"
+		if nRec > 0 && r.Rng.Intn(2) == 0 {
+			j := r.Rng.Intn(nRec)
+			upName, rep = fmt.Sprintf("rec%d", j), fmt.Sprint(j)
+			if r.Rng.Intn(2) == 0 { // edit that keeps the amount and shortens / lengthens the period
+				var ea, ep uint64
+				fmt.Sscanf(recs[j], "%d:%d", &ea, &ep)
+				amount = ea
+				if ep > 1 {
+					period = []uint64{ep / 12, ep / 2, ep * 2, ep - 1, ep + 1, 1}[r.Rng.Intn(6)]
+				}
+			}
+		}
 		hardcap := []uint64{6000000, 7000000, 0, math.MaxUint64, uint64(r.Rng.Int63())}[r.Rng.Intn(5)]
+		if r.Rng.Intn(3) == 0 && nRec > 0 { // a cap that the stored records just fit under
+			tot := sdkmath.ZeroInt()
+			for _, rc := range recs {
+				var ea, ep uint64
+				fmt.Sscanf(rc, "%d:%d", &ea, &ep)
+				if ep != 0 {
+					tot = tot.Add(sdkmath.NewIntFromUint64(ea).MulRaw(31556952).Quo(sdkmath.NewIntFromUint64(ep)))
+				}
+			}
+			if tot.IsUint64() {
+				hardcap = tot.Uint64() + uint64(r.Rng.Intn(3))*tot.Uint64()/2
+			}
+		}
 		np := gk.GetNetworkProperties(cc)
 		np.UbiHardcap = hardcap
 		gk.SetNetworkProperties(cc, np)
@@ -149,7 +176,7 @@ func runC13(r *Rec) {
 		var panicked interface{}
 		func() {
 			defer func() { panicked = recover() }()
-			err = h.Apply(cc, 1, ubitypes.NewUpsertUBIProposal("newrec", 0, 0, amount, period, "ValidatorBasicRewardsPool"), sdk.ZeroDec())
+			err = h.Apply(cc, 1, ubitypes.NewUpsertUBIProposal(upName, 0, 0, amount, period, "ValidatorBasicRewardsPool"), sdk.ZeroDec())
 		}()
 		out := "ok"
 		if panicked != nil {
@@ -161,8 +188,18 @@ func runC13(r *Rec) {
 		if len(recs) > 0 {
 			rs = strings.Join(recs, ",")
 		}
-		line := fmt.Sprintf("mint ubi-upsert %d %d %d %s", hardcap, amount, period, rs)
+		line := fmt.Sprintf("mint ubi-apply %d %d %d %s %s", hardcap, amount, period, rs, rep)
+		if out == "ok" { // resulting record set, stored order (by name: rec0 < rec1 < zrec)
+			var after []string
+			for _, rec := range w.app.UbiKeeper.GetUBIRecords(cc) {
+				after = append(after, fmt.Sprintf("%d:%d", rec.Amount, rec.Period))
+			}
+			out = "ok " + strings.Join(after, ",")
+		}
 		r.Op(line, out)
+		if strings.HasPrefix(out, "ok") {
+			out = "ok"
+		}
 		r.Case(fmt.Sprintf("ubi/%d/%d/%d/%s", hardcap, amount, period, rs), out == "ok")
 		r.Count("ubi-upsert:" + out)
 		// ---- oracle: accepted => exact yearly total within the cap (in unbounded arithmetic)
